@@ -7,7 +7,7 @@
 
 /* np.tile(a, reps): reps has 1..4 entries in 1..MAXR; d = max(a.ndim, len(reps)); both are left-padded with ones */
 void h_tile(void){
-  u64 shape[3] = {1,1,1}, reps[4], idx[4], os[4] = {0}, od = 0, ex[4] = {0}, src[3] = {0,0,0}; u32 data[CELLS], out = 0;
+  u64 shape[4] = {1,1,1,1}, reps[4], idx[4], os[4] = {0}, od = 0, ex[4] = {0}, src[4] = {0,0,0,0}; u32 data[CELLS], out = 0;
   in_shape(shape, DIM); in_data(data, NCELL);
   u64 nr = in_u64(1, 4);
   for (int i = 0; i < 4; i++) reps[i] = in_u64(1, MAXR);
@@ -32,7 +32,7 @@ void h_tile(void){
 
 /* np.repeat(a, repeats, axis): scalar repeats 1..MAXR, axis in [-DIM, DIM) */
 void h_repeat(void){
-  u64 shape[3] = {1,1,1}, idx[4], os[4] = {0}, od = 0, ex[4] = {0}, src[3] = {0,0,0}; u32 data[CELLS], out = 0;
+  u64 shape[4] = {1,1,1,1}, idx[4], os[4] = {0}, od = 0, ex[4] = {0}, src[4] = {0,0,0,0}; u32 data[CELLS], out = 0;
   in_shape(shape, DIM); in_data(data, NCELL);
   u64 rep = in_u64(1, MAXR); i32 ax = in_i32(-DIM, DIM - 1); u64 an = norm_axis(ax, DIM);
 #ifdef KF_C04_REPEAT_NEGAXIS
@@ -50,7 +50,7 @@ void h_repeat(void){
 }
 /* np.repeat(a, repeats) (axis=None): flattened input */
 void h_repeat_flat(void){
-  u64 shape[3] = {1,1,1}, idx[4] = {0}, os[4] = {0}, od = 0; u32 data[CELLS], out = 0;
+  u64 shape[4] = {1,1,1,1}, idx[4] = {0}, os[4] = {0}, od = 0; u32 data[CELLS], out = 0;
   in_shape(shape, DIM); in_data(data, NCELL);
   u64 rep = in_u64(1, MAXR), numel = prod(shape, DIM);
   idx[0] = in_u64(0, NCELL*MAXR - 1); ASSUME(idx[0] < numel * rep);
@@ -64,7 +64,7 @@ void h_repeat_flat(void){
 
 /* np.roll(a, shift, axis): shift in [-2*MAXE, 2*MAXE], axis in [-DIM, DIM) */
 void h_roll(void){
-  u64 shape[3] = {1,1,1}, idx[4], os[4] = {0}, od = 0, src[3] = {0,0,0}; u32 data[CELLS], out = 0;
+  u64 shape[4] = {1,1,1,1}, idx[4], os[4] = {0}, od = 0, src[4] = {0,0,0,0}; u32 data[CELLS], out = 0;
   in_shape(shape, DIM); in_data(data, NCELL);
   i32 sh = in_i32(-2*MAXE, 2*MAXE); i32 ax = in_i32(-DIM, DIM - 1); u64 an = norm_axis(ax, DIM);
   ASSUME(sh >= -2*(i32)shape[an] && sh <= 2*(i32)shape[an]);
@@ -82,7 +82,7 @@ void h_roll(void){
 }
 /* np.roll(a, shift) (axis=None): roll of the flattened array, original shape restored */
 void h_roll_flat(void){
-  u64 shape[3] = {1,1,1}, idx[4], os[4] = {0}, od = 0; u32 data[CELLS], out = 0;
+  u64 shape[4] = {1,1,1,1}, idx[4], os[4] = {0}, od = 0; u32 data[CELLS], out = 0;
   in_shape(shape, DIM); in_data(data, NCELL);
   u64 numel = prod(shape, DIM);
   i32 sh = in_i32(-2*NCELL, 2*NCELL);
